@@ -154,7 +154,11 @@ def explore(tier, is_known, oracle_factory, prop, plan=None):
     for name, cfg, mode, p in (plan or scenarios(tier)):
         if only and name not in only:
             continue
-        ad = make_adapter(name, cfg, p, oracle_factory())
+        try:
+            oracles = oracle_factory(cfg)  # oracles that need the scenario they are bound to
+        except TypeError:
+            oracles = oracle_factory()
+        ad = make_adapter(name, cfg, p, oracles)
         ad.name = ad.name.replace("c01-", prop.lower() + "-")
         engine._ADAPTERS[ad.name] = ad  # register everything before the pool is forked: one pool for the whole run
         todo.append((name, cfg, mode, p, ad))
